@@ -58,3 +58,10 @@ CHECKS["C13"] = dict(
     text="For every project state in the bound (2 files x expression class x copyright x read error x LICENSES contents) CrossHair runs the real format_plain / format_json / format_lines, the real lint command body with each of --quiet/--json/--plain/--lines, and the real lint-file body for every subset F; the postcondition is that the per-category sets parsed from each format are equal to the report's, the JSON summary counts equal the sizes of the JSON's own lists, all exit statuses agree with is_compliant, and lint-file prints exactly the per-file lines of lint --lines restricted to F and exits 1 iff it printed any.",
     note="Partial: path spelling / working directory and >2 items per category are outside. After the solver fixes a state all values are concrete, so the solver contributes exhaustive feasibility-checked exploration, not reasoning about the strings themselves.",
 )
+
+CHECKS["C03"] = dict(
+    engine="RZ3+XH",
+    technique="SMT (z3 regular expressions): language equality between the real ignore patterns and the statement's name language, names unbounded; symbolic execution (CrossHair + z3) of the real is_path_ignored / iter_files over a file-system and VCS model",
+    text="z3 decides for ALL file and directory names of any length that the union of the real ignore patterns (with .match semantics) accepts exactly the names the statement excludes (both inclusions; LF-free and LF-containing names separately). CrossHair explores every path of the real is_path_ignored for 27 names on both sides of each rule x 6 path kinds x parent x VCS answers x 3 include flags x subset membership against the statement's decision table, and of the real iter_files (os.walk replaced by a pruning-aware model) over a two-level tree with symbolic kinds and VCS answers, confirming that exactly the non-excluded files without excluded ancestors are yielded.",
+    note="PARTIAL: Git's own answer (what the external git process reports for a .gitignore) is not encodable and is outside the claim; what is decided is that for any answer of the VCS layer the selection is right. Stubs: Path model, VCS model, os.walk model. Known findings: CAL-1.0/SHL-2.1 licence-text workaround names skipped everywhere; LF artefacts. Fixed: unescaped dot in the SPDX-document pattern (b49d0bc).",
+)
